@@ -198,6 +198,22 @@ Section ResolveTrunc.
     rewrite (Hrec ch o Hw Ed H0 Hlt). reflexivity.
   Qed.
 
+  Lemma following_char_trunc : forall diff chain w nx,
+    wf_chain chain ->
+    following_char env rec' diff (map (trunc_objs n) chain) stop w nx = following_char env rec diff chain stop w nx.
+  Proof.
+    intros diff chain w nx Hwf. induction nx as [|f r IH]; [reflexivity|].
+    destruct f as [[|c lit]|u]; cbn [following_char]; [exact IH|reflexivity|].
+    rewrite lookup_var_trunc by exact Hwf. rewrite IH. reflexivity.
+  Qed.
+
+  Lemma dtext_trunc : forall diff chain w v nx,
+    wf_chain chain ->
+    dtext env rec' diff (map (trunc_objs n) chain) stop w v nx = dtext env rec diff chain stop w v nx.
+  Proof.
+    intros diff chain w v nx Hwf. unfold dtext. rewrite following_char_trunc by exact Hwf. reflexivity.
+  Qed.
+
   Lemma resolve_words_trunc : forall diff chain ws,
     wf_chain chain ->
     resolve_words env rec' diff (map (trunc_objs n) chain) stop ws = resolve_words env rec diff chain stop ws.
@@ -208,7 +224,8 @@ Section ResolveTrunc.
     { unfold resolve_word. destruct (quote_eqb (wq w) Q1); [reflexivity|].
       destruct (fragments_of_word w) as [[[force have] frs]| |]; cbn [bind]; try reflexivity.
       erewrite mapM_tl_ext; [reflexivity|].
-      intros [lit|v] nx; cbn [frag_result]; [reflexivity|]. rewrite lookup_var_trunc by exact Hwf. reflexivity. }
+      intros [lit|v] nx; cbn [frag_result]; [reflexivity|]. rewrite dtext_trunc by exact Hwf.
+      rewrite lookup_var_trunc by exact Hwf. reflexivity. }
     rewrite Hw. reflexivity.
   Qed.
 End ResolveTrunc.
